@@ -49,11 +49,11 @@ def gen_script(rng, n, reentrant):
     for _ in range(n):
         r = rng.random()
         if r < 0.55:
-            res = "ok"
+            res = "ok" if rng.random() < 0.8 else "fired"        # plain value | an already-fired Deferred
         elif r < 0.85:
-            res = "defer"
+            res = "defer" if rng.random() < 0.65 else "paused"   # pending Deferred | fired, chain paused on a pending one
         else:
-            res = "err:%s:%d" % (rng.choice(ERR_KINDS_PROC), rng.randrange(100, 200))
+            res = "%s:%s:%d" % ("err" if rng.random() < 0.7 else "failed", rng.choice(ERR_KINDS_PROC), rng.randrange(100, 200))
         acts = []
         if reentrant and rng.random() < 0.15:
             acts = [rng.choice(["stop", "commit", "shutdown", "commit"])]
@@ -425,7 +425,7 @@ class FairGen(Gen):
         cfg = self.cfg
         cfg["attempts"] = 0
         self.log = Log(rng, cfg["buf"], cfg["max"], fit=True)
-        script = [{"acts": [], "res": rng.choice(["ok", "ok", "defer"])} for _ in range(60)]
+        script = [{"acts": [], "res": rng.choice(["ok", "ok", "defer", "fired", "paused"])} for _ in range(60)]
         sc = {"cfg": cfg, "script": script, "events": [], "log": self.log.msgs(), "fair": True}
         run = Run(sc)
         impl = []
